@@ -9,6 +9,7 @@ package main
 // definitely removed. Oracle 3: a strategy switch preserves health.
 
 import (
+	"github.com/0xReLogic/Helios/internal/loadbalancer"
 	"bytes"
 	"encoding/json"
 	"fmt"
@@ -431,6 +432,64 @@ func runLBAdmin(x *X) {
 			if d1 != d0 && !shared {
 				x.Violate("C11", "C11/strategy-switch-lost-ejection", "backend perm was ejected %v ago (window %ds) and received traffic after switching to %s", time.Second, window, ns)
 			}
+		}
+	}
+
+	// ---- oracle 4: a member removed and added again under its name is a new member ----------
+	// Requests still in flight on the old instance fail after the new one has been added: that is
+	// the old instance's failure. The new one has served nothing and stays healthy and eligible.
+	if !x.dead && c.Intn(3, "readd-while-old-requests-fail") == 0 {
+		net.mu.Lock()
+		for _, b := range net.order {
+			b.mode, b.delay = "ok", 0
+		}
+		net.mu.Unlock()
+		x.Advance(time.Duration(window+1)*time.Second, onErr) // every earlier ejection is over
+		var plans []*reqPlan
+		for j := 0; j < 3; j++ {
+			p := &reqPlan{hold: true, mode: "s500"}
+			plans = append(plans, p)
+			cl := fmt.Sprintf("198.51.100.%d", 90+j)
+			s.Spawn("held-failing", func() { h.do(reqSpec{client: cl, path: "/old-instance", plan: p}) })
+			x.Settle(onErr)
+		}
+		// which member holds one of them?
+		var victim *loadbalancer.BackendInfo
+		var list []loadbalancer.BackendInfo
+		x.Do("list", func() { list = h.lb.ListBackends() }, onErr)
+		net.mu.Lock()
+		for i := range list {
+			if b := net.byHost[strings.TrimPrefix(list[i].Address, "http://")]; b != nil && b.inflight > 0 && victim == nil {
+				victim = &list[i]
+			}
+		}
+		net.mu.Unlock()
+		newHost := hostOf(6)
+		if victim != nil && strings.HasSuffix(victim.Address, newHost) {
+			newHost = hostOf(5)
+		}
+		if victim != nil && !x.dead {
+			x.Do("remove+add", func() {
+				h.lb.RemoveBackend(victim.Name)
+				if err := h.lb.AddBackend(config.BackendConfig{Name: victim.Name, Address: "http://" + newHost, Weight: 1}); err != nil {
+					panic(err)
+				}
+			}, onErr)
+		}
+		net.mu.Lock()
+		for _, p := range plans {
+			p.released = true
+		}
+		net.mu.Unlock()
+		x.RunTasks(onErr)
+		if victim != nil && !x.dead {
+			x.Do("list", func() { list = h.lb.ListBackends() }, onErr)
+			for _, bi := range list {
+				if bi.Name == victim.Name && strings.HasSuffix(bi.Address, newHost) && !bi.Healthy {
+					x.Violate("C11", "C11/re-added-member-inherits-ejection", "backend %s was removed and added again (new address %s) while requests were in flight on the old instance (%s); when those failed, the NEW member -- which has served nothing -- was ejected", bi.Name, bi.Address, victim.Address)
+				}
+			}
+			x.Probe("readd-while-old-requests-fail")
 		}
 	}
 
